@@ -72,9 +72,10 @@ class FStr:
     symbolic non-negative ints (assumption A-FMT: decimal formatting of a non-negative int is a
     non-empty, digit-only, injective string, so two FStr with literal parts free of digits at the
     joints are equal iff their components are)."""
-    __slots__ = ('parts',)
+    __slots__ = ('parts', 'spec')
 
-    def __init__(self, parts):
+    def __init__(self, parts, spec=False):
+        self.spec = spec      # built by a contract (the expected value), not by the code under check
         out = []
         for p in parts:
             if isinstance(p, FStr):
